@@ -151,7 +151,7 @@ Qed.
 Example C06_example_hand : Hand5 [layout 7 0; layout 11 3; layout 11 1; layout 7 3; layout 11 2].
 Proof.
   split; [reflexivity|]. split.
-  - apply Forall_forall. intros w Hw. apply Proofs.CardFacts.real_cardb_spec.
+  - apply Forall_forall. intros w Hw. apply Proofs.CardBase.real_cardb_spec.
     cbn [In] in Hw. repeat (destruct Hw as [<-|Hw]; [vm_compute; reflexivity|]). contradiction.
   - apply Base.Reflect.nodupb_NoDup. vm_compute. reflexivity.
 Qed.
